@@ -44,16 +44,16 @@ type Ctx struct {
 	renamedBack map[*load.FuncInfo]string
 	// skipWrap: the helper rules are run as a clause of another property, without the int32 overflow rule (a C01/C15 matter)
 	skipWrap bool
-	P     *load.Prog
-	E     *gf.Engine
-	G     *eff.Graph
-	Tier  string
-	Prop  string
-	Obs   []*Ob
-	Notes []string
-	Fatal []string // checker could not analyse (unresolved anchor, floor not met)
-	start time.Time
-	an    map[*gf.Fn]*gf.Analysis
+	P        *load.Prog
+	E        *gf.Engine
+	G        *eff.Graph
+	Tier     string
+	Prop     string
+	Obs      []*Ob
+	Notes    []string
+	Fatal    []string // checker could not analyse (unresolved anchor, floor not met)
+	start    time.Time
+	an       map[*gf.Fn]*gf.Analysis
 }
 
 func NewCtx(p *load.Prog, tier string) *Ctx {
@@ -331,18 +331,18 @@ func RunProperty(c *Ctx, prop *Property, findings []Finding, seed int, evidenceD
 		byRule[o.Rule]++
 	}
 	cov := map[string]any{
-		"explanation":         prop.Explanation,
-		"evaluations":         total,
-		"distinct_nontrivial": nontriv,
-		"rule":                "one obligation per rule instance (rule id + resolved construct); non-trivial = its discharge needed a guard fact, a resolved call site or a type comparison (not a vacuous or unreachable instance); distinct by rule+construct key",
-		"samples":             samples,
-		"obligations":         total,
-		"discharged":          disc,
-		"known_findings":      nKnown,
+		"explanation":           prop.Explanation,
+		"evaluations":           total,
+		"distinct_nontrivial":   nontriv,
+		"rule":                  "one obligation per rule instance (rule id + resolved construct); non-trivial = its discharge needed a guard fact, a resolved call site or a type comparison (not a vacuous or unreachable instance); distinct by rule+construct key",
+		"samples":               samples,
+		"obligations":           total,
+		"discharged":            disc,
+		"known_findings":        nKnown,
 		"violated_or_undecided": len(viol),
-		"obligations_by_rule": byRule,
-		"checker_cmd":         "bin/asverif check " + prop.ID + " --tier " + c.Tier,
-		"trusted_base":        TrustedBase,
+		"obligations_by_rule":   byRule,
+		"checker_cmd":           "bin/asverif check " + prop.ID + " --tier " + c.Tier,
+		"trusted_base":          TrustedBase,
 		"analysed": map[string]any{
 			"repo":          c.P.Repo,
 			"packages":      len(c.P.Roots),
@@ -492,7 +492,7 @@ func pathTo(root ast.Node, target ast.Node) []ast.Node {
 // function, together with the call in the function's own body that leads to it.
 type LiftedSite struct {
 	*eff.Site
-	Top    *ast.CallExpr // call in the function's own body (== Site.Call when direct)
+	Top    *ast.CallExpr  // call in the function's own body (== Site.Call when direct)
 	Helper *load.FuncInfo // nil when direct
 }
 
